@@ -439,8 +439,103 @@ func ketOracle(r *rand.Rand, n int, tier string, infile string) (cases int, fail
 		if f := ketOracleCase(rand.New(rand.NewSource(base + int64(k)))); f != "" && len(fails) < 12 {
 			fails = append(fails, fmt.Sprintf("%s case=%d/%d", f, base, k))
 		}
+		if (oracleOffset+k)%4 == 0 {
+			if f := ketContinuityCase(rand.New(rand.NewSource(base + int64(k) + 7))); f != "" && len(fails) < 12 {
+				fails = append(fails, fmt.Sprintf("%s case=%d/%d", f, base, k))
+			}
+		}
 	}
 	return cases, fails
+}
+
+// ketContinuityCase (C05): a channel that established with key 1 goes quiet until every session it holds has expired
+// (the application keeps trying to send now and then, so the channel looks at its sessions), then a party with ANOTHER
+// key, which the acceptance predicate would accept on first contact, shows up at the other end and handshakes. The
+// channel is bound to key 1 for good: it must not report the new key, become ready with it, or hand out its data.
+func ketContinuityCase(r *rand.Rand) (failure string) {
+	st := newKtState()
+	defer func() {
+		for _, c := range st.chans {
+			c.Close()
+		}
+		bubbleWait()
+	}()
+	net := &ktNet{st: st}
+	ka, bo := hx.Pick(r, 40, 150, 1000), hx.Pick(r, 20, 100)
+	ra := hx.Pick(r, 300, 700, 2003)
+	rj := ra + ketAttempts*bo + hx.Pick(r, 10*bo, 1000)
+	st.chans[0] = st.newChan(0, 0, "all", ka, bo, ra, rj)
+	st.chans[1] = st.newChan(1, 1, "all", ka, bo, ra, rj)
+	fail := func(f string, a ...any) string {
+		h := net.log
+		if len(h) > 40 {
+			h = h[len(h)-40:]
+		}
+		return "C05 " + fmt.Sprintf(f, a...) + fmt.Sprintf(" at t=%d ch0[%s] ch1[%s]", st.nowMs(), chanObs(st.chans[0]), chanObs(st.chans[1])) + " history=[" + strings.Join(h, "; ") + "]"
+	}
+	run := func(cid int, payload string, limit int) (error, map[int][]string) {
+		got := map[int][]string{}
+		ctx, cf := context.WithTimeout(context.Background(), ms(limit))
+		defer cf()
+		done := make(chan error, 1)
+		go func() { done <- st.chans[cid].Send(ctx, p2p.IOVec{[]byte(payload)}) }()
+		bubbleWait()
+		start := st.nowMs()
+		for st.nowMs()-start <= int64(limit) {
+			net.deliverAll(got)
+			select {
+			case err := <-done:
+				net.deliverAll(got)
+				return err, got
+			default:
+			}
+			time.Sleep(ms(1))
+			bubbleWait()
+		}
+		cf()
+		err := <-done
+		return err, got
+	}
+	first := r.Intn(2)
+	if err, _ := run(first, "hello", (ketAttempts+4)*bo); err != nil {
+		return "" // establishment is C07's business
+	}
+	bound := keyIndex(st.chans[0].RemoteKey())
+	if bound != "1" {
+		return fail("after establishing with key 1 the channel reports key %s", bound)
+	}
+	net.note("established; ch0 is bound to key %s", bound)
+	// the peer goes away; time passes; the application on ch0 tries to send now and then
+	st.chans[1].Close()
+	bubbleWait()
+	delete(st.chans, 1)
+	for k := 0; k < 2+r.Intn(4); k++ {
+		d := hx.Pick(r, ka+1, rj, rj+ka, 2*rj, ra)
+		time.Sleep(ms(d))
+		bubbleWait()
+		ctx, cf := context.WithTimeout(context.Background(), ms(hx.Pick(r, 0, 1, bo, 3*bo)))
+		st.chans[0].Send(ctx, p2p.IOVec{[]byte("anyone there")})
+		cf()
+		bubbleWait()
+		st.takeEvents() // nobody is listening
+		net.pool = nil
+		net.note("%d ms of silence, then a Send that goes nowhere", d)
+	}
+	// another party, with key 3, now sits at the other end
+	st.chans[1] = st.newChan(1, 3, "all", ka, bo, ra, rj)
+	net.note("a party with key 3 appears at the other end")
+	who := r.Intn(2)
+	_, got := run(who^0, "from-the-stranger-or-to-it", (ketAttempts+4)*bo)
+	_, got2 := run(1, "data from key 3", (ketAttempts+4)*bo)
+	for _, p := range append(got[0], got2[0]...) {
+		if p == "data from key 3" || (who == 1 && p == "from-the-stranger-or-to-it") {
+			return fail("a channel bound to key 1 handed the application data sent by key 3")
+		}
+	}
+	if now := keyIndex(st.chans[0].RemoteKey()); now != "1" && now != "-" {
+		return fail("a channel bound to key 1 reports key %s as its remote key after a period of silence and a handshake by that key", now)
+	}
+	return ""
 }
 
 func ketOracleCase(r *rand.Rand) (failure string) {
